@@ -9,6 +9,7 @@ import functions
 import lookup
 from records import adjust_record, Record as BaseRecord, RecordSet as BaseRecordSet
 import relation as relation_module    # "relation" is used too much as a variable name below.
+from sort_key import make_sort_key
 import usertypes
 
 log = logging.getLogger(__name__)
@@ -551,8 +552,13 @@ class Table(object):
       sorted_lookup_map = lookup_map
 
     row_ids, rel = sorted_lookup_map.do_lookup(key)
-    return self.RecordSet(row_ids, rel, group_by=kwargs, sort_by=sort_by,
-        sort_key=sorted_lookup_map.sort_key)
+    sort_key = sorted_lookup_map.sort_key
+    if sort_key is None and not sort_by and (
+        order_by == 'id' or (isinstance(order_by, tuple) and 'id' in order_by)):
+      # Ordering by row ID alone needs no helper column (results come in that order anyway), but
+      # it is a sorted result: give it the sort key that compares by row ID, so find.* works.
+      sort_key = make_sort_key(self, ())
+    return self.RecordSet(row_ids, rel, group_by=kwargs, sort_by=sort_by, sort_key=sort_key)
 
   def lookup_one_record(self, **kwargs):
     return self.lookup_records(**kwargs).get_one()
